@@ -255,7 +255,7 @@ pub fn observe(it: &Interp) -> Res<Obs> {
 						s.insert(*id, 1);
 					}
 				}
-				if ccfg.kind == Kind::Hash && it.queue_empty() {
+				if ccfg.kind == Kind::Hash && it.queue_empty() && it.stages.in_flight() == 0 {
 					let counts = observe_rc_counts(it, col8)?;
 					let present: BTreeSet<u16> = s.keys().cloned().collect();
 					let iterated: BTreeSet<u16> = counts.keys().cloned().filter(|k| it.universe[col].contains(k)).collect();
